@@ -19,6 +19,7 @@ import SshuttleModel.Lemmas.SockInv
 import SshuttleModel.Lemmas.MuxMove
 import SshuttleModel.Props.C01
 import SshuttleModel.Code.Accept
+import SshuttleModel.Code.Alloc
 
 namespace Sshuttle.Tunnel
 open Sshuttle.Mux (Frame)
@@ -854,5 +855,26 @@ property's fault list, recorded so that the boundary is explicit). -/
 theorem C08_accept_other_errors_raise (e : Nat) (s : Accept.Fd) (h : Generated.ACCEPT_HANDLED.contains e = false) :
     (Accept.acceptError e s).1 = .died := by
   unfold Accept.acceptError; rw [h]; rfl
+
+
+/-- **No identifier free for a new flow ends at most that flow.**  When the allocator finds no free
+id within its probe window (TCP accept, DNS query or UDP datagram from a new source alike), the
+arrival is discarded and the client's tables — registered ids, held DNS requests and UDP
+associations with their deadlines — are exactly what they were; only the allocation cursor has
+moved.  (The table model is the one C06 keeps in lock-step with the real `onaccept_tcp`, `ondns`
+and `onaccept_udp`, exhaustion included.) -/
+theorem C08_exhaustion_discards (max probes : Nat) (s : Alloc.Timed) (k : Alloc.Kind)
+    (h : (Alloc.nextChannel max s.t.occ probes s.t.chani).1 = none) :
+    (s.step max probes (.base (.open k))).2 = .base .discarded ∧
+    (s.step max probes (.base (.open k))).1.t.live = s.t.live ∧
+    (s.step max probes (.base (.open k))).1.dl = s.dl ∧
+    (s.step max probes (.base (.open k))).1.now = s.now := by
+  simp only [Alloc.Timed.step, Alloc.Table.step]
+  cases hn : Alloc.nextChannel max s.t.occ probes s.t.chani with
+  | mk r ch =>
+    rw [hn] at h
+    simp only at h
+    subst h
+    exact ⟨rfl, rfl, rfl, rfl⟩
 
 end Sshuttle.Tunnel
